@@ -28,10 +28,10 @@ def opts_for(tier, rng, **over):
     return U.GenOpts(**kw)
 
 
-def gen_case(rng, tier, **over):
+def gen_case(rng, tier, any_maker=None, **over):
     o = opts_for(tier, rng, **over)
     T = U.gen_type(rng, o, depth=rng.choice([0, 1, 2, o.depth, o.depth]))
-    v = U.gen_value(rng, T, o)
+    v = U.gen_value(rng, T, o, any_maker=any_maker)
     return T, v
 
 
